@@ -12,6 +12,7 @@ import (
 
 var (
 	ErrUnknownKeyType = errors.New("unknown key type")
+	ErrBadIndexEntry  = errors.New("bad index entry")
 )
 
 type indexedField struct {
@@ -36,8 +37,18 @@ func (f *indexedField) UnmarshalJSON(data []byte) (err error) {
 	if err = dec.Decode(&tuple); err != nil {
 		return err
 	}
+
+	// a malformed index must be reported, not make us panic
+	if len(tuple) != 2 {
+		return fmt.Errorf("%w: expecting [value, id] got %s", ErrBadIndexEntry, string(data))
+	}
+	id, ok := tuple[1].(json.Number)
+	if !ok {
+		return fmt.Errorf("%w: bad object id in %s", ErrBadIndexEntry, string(data))
+	}
+
 	f.Value = tuple[0]
-	f.ObjectId, err = strconv.ParseUint(tuple[1].(json.Number).String(), 10, 64)
+	f.ObjectId, err = strconv.ParseUint(id.String(), 10, 64)
 	return
 }
 
@@ -81,26 +92,32 @@ func newIndexedField(value interface{}, objid uint64) (*indexedField, error) {
 	return &indexedField{value, objid}, err
 }
 
-func (f *indexedField) valueTypeFromString(t string) {
-	var err error
-
+func (f *indexedField) valueTypeFromString(t string) (err error) {
 	// numeric values are unmarshaled as json.Number that we convert
 	// according to the type the index has been built with
 	switch t {
-	case "float64":
-		f.Value, err = f.Value.(json.Number).Float64()
-	case "int64":
-		f.Value, err = strconv.ParseInt(f.Value.(json.Number).String(), 10, 64)
-	case "uint64":
-		f.Value, err = strconv.ParseUint(f.Value.(json.Number).String(), 10, 64)
+	case "float64", "int64", "uint64":
+		n, ok := f.Value.(json.Number)
+		if !ok {
+			return fmt.Errorf("%w: %T(%v) is not a number", ErrBadIndexEntry, f.Value, f.Value)
+		}
+		switch t {
+		case "float64":
+			f.Value, err = n.Float64()
+		case "int64":
+			f.Value, err = strconv.ParseInt(n.String(), 10, 64)
+		case "uint64":
+			f.Value, err = strconv.ParseUint(n.String(), 10, 64)
+		}
 	case "string":
+		if _, ok := f.Value.(string); !ok {
+			return fmt.Errorf("%w: %T(%v) is not a string", ErrBadIndexEntry, f.Value, f.Value)
+		}
 	default:
-		panic(fmt.Errorf("%w %s", ErrUnknownKeyType, t))
+		return fmt.Errorf("%w %s", ErrUnknownKeyType, t)
 	}
 
-	if err != nil {
-		panic(err)
-	}
+	return
 }
 
 func (f *indexedField) valueTypeString() string {
